@@ -79,8 +79,8 @@ CLAIMS = {
         note="Partial: full two-sided data_before_close statement kept as a def (glue by oracle); listen_connects_pending for one pending OPEN. Trusted: C10 delivery, fake Connector/connection, no re-entrant callbacks.",
         tech="Lean 4 proof (induction over histories, per-row decide on generated table) + generated wiring flags + differential correspondence"),
     "C15": dict(
-        text="19 Lean theorems over every reachable micro-configuration of a small-step model with an explicit Python call stack (re-entrant producer turns as an oracle): sets_partition, paused_means_all_paused, waiting_producer_has_active_loop (no lost wake-up), drain_resumes_all, fair_rotation, no_double_signal, inbound_pause_exact (needs the forwarding added by fix ed4a840, read from generated skeletons); tied to real Outbound/Inbound/PullToPush/DilatedConnectionProtocol with mock producers.",
-        note="Environment hypotheses explicit in Reach (producers' pause/stop do not call back; one producer per subchannel; use/stop connection alternate). Trusted: Cooperator scheduling (fake scheduler).",
+        text="20 Lean theorems over every reachable micro-configuration of a small-step model with an explicit Python call stack (re-entrant producer turns as an oracle): sets_partition, paused_means_all_paused, waiting_producer_has_active_loop (no lost wake-up), drain_resumes_all, fair_rotation, no_double_signal, inbound_pause_exact and inbound_open_exact (the TCP transport is paused exactly while a not-closed subchannel has an outstanding pause; needs the forwarding added by fix ed4a840 and the close-time release added by fix bec439a, both read from generated skeletons); tied to real Outbound/Inbound/PullToPush/DilatedConnectionProtocol with mock producers.",
+        note="Environment hypotheses explicit in Reach (producers' pause/stop do not call back; one producer per subchannel; use/stop connection alternate; a closed subchannel's application does not call pauseProducing again — checked dynamically, such cases are correspondence-only). Trusted: Cooperator scheduling (fake scheduler).",
         tech="Lean 4 proof (invariants over a small-step semantics with call stack) + skeleton agreement + differential correspondence incl. exhaustive small scopes"),
     "C19": dict(
         text="21 Lean theorems: word_tables_bijective (decide +kernel over the generated 256-entry tables), choose_words_shape/injective, allocated_shape, completion_extends/exact/acceptable/complete, wellformed_iff and malformed_rejected (regex semantics keyed on the extracted regex; Unicode \\d ranges generated), only_one_code / failed_set_code_keeps_latch / at_most_one_code, helper order errors from the generated Input table; tied to the real wordlist/Code/Input/Allocator/Boss.",
